@@ -260,7 +260,7 @@ pub fn skeleton_hash(text: &str) -> u64 {
 
 pub fn probe_attempt(w: &mut World, actor: &str, psbt: &Psbt) {
     w.stats.attempts += 1;
-    let want = ["C01", "C02", "C03", "C07", "C09", "C13", "C17"].iter().any(|p| w.mon.on(p));
+    let want = ["C01", "C02", "C03", "C07", "C09", "C11", "C13", "C17"].iter().any(|p| w.mon.on(p));
     if !want {
         return;
     }
